@@ -1,4 +1,4 @@
-import vf, e2obs, decode
+import vf, e2obs, decode, importlib
 import prog_kinds
 
 ENC_TEXT = ["cminx.aggregator.DocumentationAggregator.enterDocumented_command", "DocumentationAggregator.clean_doc_lines",
@@ -33,6 +33,12 @@ def build(tier):
                          timeout=240 if quick else 1200, encodes=ENC_TEXT,
                          symbolic=f"doc lines of lengths {l1} and {l2}: arbitrary code points (no LF, CR, ']]'); 0 = empty line",
                          bound=f"two adjacent documented commands ({a}, {b}); line lengths {l1} / {l2}"))
+    # doccomment attached to the module: body lines incl. leading/inner empty lines reach the module directive verbatim
+    C12 = importlib.import_module('C12')
+    for (hn, bl) in (((True, (0, 2, 0, 1)), (False, (2, 0))) if quick else ((True, (0, 3, 0, 0, 2)), (False, (2, 0, 3)), (True, (0,)))):
+        o = C12.mod_ob(hn, 2, bl, 2, True, 240 if quick else 1200)
+        o.name = o.name.replace('C12.c', 'C01.c module doccomment')
+        obs.append(o)
     D = 2 if quick else 4
     obs.append(e2obs.ob_validate(D, tier))
     obs.append(e2obs.ob_canon('C01', D, module=False, label='C01.d'))
